@@ -220,7 +220,7 @@ def rules_taint(run):
 
 
 def check(run):
-    rules_taint(run)
-    rules_order(run, 'C07', '.2')
+    run.guard(rules_taint, run)
+    run.guard(rules_order, run, 'C07', '.2')
     from .c16 import rules_caches
-    rules_caches(run, 'C07', '.4')
+    run.guard(rules_caches, run, 'C07', '.4')
